@@ -117,6 +117,14 @@ TWire ==
     /\ More /\ Ev.k = "wire" /\ ssl \in {"tlsp", "tls"} /\ Ev.rec
     /\ l' = l + 1 /\ UNCHANGED <<vars, pend>>
 
+\* C15: the type maps this connection encoded with: one of its own, shared
+\* with no other connection of the server
+TMaps ==
+    /\ More /\ Ev.k = "x-maps" /\ pend = <<>>
+    /\ Cardinality(Range(Ev.own)) <= 1
+    /\ Range(Ev.own) \cap Range(Ev.others) = {}
+    /\ l' = l + 1 /\ UNCHANGED <<vars, pend>>
+
 \* a silent server step
 TServer ==
     /\ pend = <<>>
@@ -165,7 +173,7 @@ TFaultedClose ==
     /\ l' = l + 1
     /\ UNCHANGED <<cfg, ssl, mwi, cparams, inq, eof, faulted, stmts, portals, skip, hq, h, pend>>
 
-TNext == TReset \/ TTls \/ TTlsFail \/ TWire \/ TIntact \/ TSegRun \/ TPreamble \/ TGlobal \/ TParseParams \/ TApi \/ TSend \/ TEof \/ TLate \/ TServer \/ TMatch \/ TIdle
+TNext == TReset \/ TMaps \/ TTls \/ TTlsFail \/ TWire \/ TIntact \/ TSegRun \/ TPreamble \/ TGlobal \/ TParseParams \/ TApi \/ TSend \/ TEof \/ TLate \/ TServer \/ TMatch \/ TIdle
          \/ TFault \/ TFaultedCb \/ TFaultedClose
 
 TSpec == TInit /\ [][TNext]_tvars
